@@ -5,7 +5,8 @@
    about mutexes or slices.
 
    Futures are either external (completed by Complete calls) or the result of
-   ThenCompose(f, _ -> g), which completes with g's value once f and g completed. *)
+   ThenCompose(f, _ -> g), which completes with g's value once f and g completed --
+   unless its holder completed it directly before that. *)
 EXTENDS Naturals, Sequences, FiniteSets
 
 VARIABLES started,   \* [fut -> set of values for which Complete(f, v) has been called]
@@ -30,14 +31,18 @@ HInit(futs) == /\ started = [f \in futs |-> {}]
                /\ comp = [f \in futs |-> <<>>]
                /\ open = <<>>
 
-RECURSIVE CanComplete(_), Possible(_)
-CanComplete(f) == IF comp[f] = <<>> THEN started[f] # {}
-                  ELSE CanComplete(comp[f][1]) /\ CanComplete(comp[f][2])
+RECURSIVE CanComplete(_), Possible(_), Inner(_)
+\* A composed future is an ordinary future as well: its holder may complete it directly
+\* (a cancel / timeout) and whichever completion comes first -- the direct one or the link
+\* from g -- fixes the value; the other one is ignored.
+Linked(f) == comp[f] # <<>> /\ CanComplete(comp[f][1]) /\ CanComplete(comp[f][2])
+CanComplete(f) == started[f] # {} \/ Linked(f)
+\* values the link may deliver to f
+Inner(f) == IF Linked(f) THEN Possible(comp[f][2]) ELSE {}
 \* values f may legitimately hold
-Possible(f) == IF comp[f] = <<>>
-                 THEN IF val[f] # 0 THEN {val[f]}
-                      ELSE IF frozen[f] THEN cands[f] ELSE started[f]
-                 ELSE IF val[f] # 0 THEN {val[f]} ELSE Possible(comp[f][2])
+Possible(f) == IF val[f] # 0 THEN {val[f]}
+               ELSE IF frozen[f] THEN cands[f]
+               ELSE started[f] \cup Inner(f)
 
 Put(fn, k, v) == [x \in DOMAIN fn \cup {k} |-> IF x = k THEN v ELSE fn[x]]
 Drop(fn, k) == [x \in DOMAIN fn \ {k} |-> fn[x]]
@@ -53,7 +58,7 @@ CallAccept(t, f, cb) == /\ t \notin DOMAIN open /\ cb \notin DOMAIN ran
                         /\ open' = Put(open, t, [op |-> "accept", fut |-> f])
                         /\ UNCHANGED <<started, frozen, cands, val, comp>>
 
-CallComplete(t, f, v) == /\ t \notin DOMAIN open /\ comp[f] = <<>> /\ v # 0
+CallComplete(t, f, v) == /\ t \notin DOMAIN open /\ v # 0
                          /\ started' = [started EXCEPT ![f] = @ \cup {v}]
                          /\ open' = Put(open, t, [op |-> "complete", fut |-> f])
                          /\ UNCHANGED <<frozen, cands, val, reg, ran, comp>>
@@ -72,7 +77,7 @@ Ret(t) == /\ t \in DOMAIN open
           /\ LET c == open[t] IN
                IF c.op = "complete" /\ ~frozen[c.fut]
                  THEN /\ frozen' = [frozen EXCEPT ![c.fut] = TRUE]
-                      /\ cands' = [cands EXCEPT ![c.fut] = started[c.fut]]
+                      /\ cands' = [cands EXCEPT ![c.fut] = started[c.fut] \cup Inner(c.fut)]
                  ELSE UNCHANGED <<frozen, cands>>
           /\ open' = Drop(open, t)
           /\ UNCHANGED <<started, val, reg, ran, comp>>
